@@ -543,7 +543,7 @@ Record Inv (t : ty) : Prop := {
   inv_b : flat_map members (map nf (map (out arity) (IV t))) = members (nf t) /\
           (only_unsolvable (IV t) = true -> t = TAny) /\
           (is_any t = false -> Keys (map (out arity) (IV t)) (mkeys t)) /\
-          (is_union t = false -> exists v, IV t = [v])
+          (is_union t = false -> exists v, IV t = [v] /\ (is_any t = false -> is_unsolvable v = false))
 }.
 
 Lemma Keys_join_nf xs ks : Keys xs ks -> NoDup ks -> nf (join xs) = mkU (flat_map members (map nf xs)).
@@ -625,6 +625,9 @@ Proof.
   - cbn [out]. rewrite map_repeat. reflexivity.
 Qed.
 
+Lemma only_unsolvable_single v : only_unsolvable [v] = is_unsolvable v.
+Proof. unfold only_unsolvable. simpl. apply andb_true_r. Qed.
+
 Lemma inv_of_single t x ks :
   (* a non-union, non-Any type whose instance, instantiation and variable are all the single value x *)
   is_union t = false -> is_any t = false -> member_ok t = true ->
@@ -640,7 +643,8 @@ Proof.
     + rewrite Hiv. simpl. rewrite app_nil_r. congruence.
     + intros H. congruence.
     + intros _. rewrite Hiv, Emk, Hks. exact HK.
-    + intros _. exact Hex.
+    + intros _. destruct Hex as [v Ev]. exists v. split; auto. intros _.
+      rewrite Ev, only_unsolvable_single in Hno. exact Hno.
 Qed.
 
 Lemma Keys_nothing : Keys [TNothing] [].
@@ -661,13 +665,13 @@ Proof.
     constructor.
     + intros _. split; [reflexivity|discriminate].
     + reflexivity.
-    + split; [reflexivity|]. split; [auto|]. split; [discriminate|]. intros _. eexists; reflexivity.
+    + split; [reflexivity|]. split; [auto|]. split; [discriminate|]. intros _. eexists; split; [reflexivity|discriminate].
   - (* nothing *)
     constructor.
     + intros _. split; [reflexivity|]. intros _. exact Keys_nothing.
     + reflexivity.
     + split; [reflexivity|]. split; [discriminate|]. split; [intros _; exact Keys_nothing|].
-      intros _. eexists; reflexivity.
+      intros _. eexists; split; reflexivity.
   - (* error *) discriminate.
   - (* class *)
     simpl in Hwf. apply andb_true_iff in Hwf. destruct Hwf as [H0 Hty].
@@ -735,7 +739,7 @@ Proof.
         -- rewrite Eiv. cbn [map flat_map]. rewrite app_nil_r. rewrite Enb. reflexivity.
         -- cbn [conv_cls instantiate]. apply N.eqb_neq in Hc. rewrite Hc. discriminate.
         -- intros _. rewrite Eiv. cbn [mkeys]. rewrite mkeys1_generic by auto. apply HK.
-        -- intros _. cbn [conv_cls instantiate]. apply N.eqb_neq in Hc. rewrite Hc. eexists; reflexivity.
+        -- intros _. cbn [conv_cls instantiate]. apply N.eqb_neq in Hc. rewrite Hc. eexists; split; reflexivity.
   - (* tuple *)
     cbn [wf] in Hwf. apply forallb_Forall in Hwf.
     assert (forall p, In p ps -> Inv p) as IHp.
@@ -759,7 +763,7 @@ Proof.
       * rewrite Eiv. cbn [map flat_map]. rewrite app_nil_r, Enb. reflexivity.
       * discriminate.
       * intros _. rewrite Eiv. apply HK.
-      * intros _. eexists; reflexivity.
+      * intros _. eexists; split; reflexivity.
   - (* callable *)
     cbn [wf] in Hwf. apply andb_true_iff in Hwf. destruct Hwf as [Hwa Hwr]. apply forallb_Forall in Hwa.
     assert (forall p, In p a -> Inv p) as IHp.
@@ -825,8 +829,9 @@ Proof.
         destruct (Hmm t2 (or_intror (or_introl eq_refl))) as [Hu2 _].
         destruct (IHm t1 (or_introl eq_refl)) as [_ _ (_ & _ & _ & He1)].
         destruct (IHm t2 (or_intror (or_introl eq_refl))) as [_ _ (_ & _ & _ & He2)].
-        destruct (He1 Hu1) as [v1 E1]. destruct (He2 Hu2) as [v2 E2].
-        simpl. rewrite E1, E2. simpl. destruct v1; discriminate.
+        destruct (Hmm t1 (or_introl eq_refl)) as [_ Ha1].
+        destruct (He1 Hu1) as [v1 [E1 Hv1]]. destruct (He2 Hu2) as [v2 [E2 _]].
+        simpl. rewrite E1, E2. simpl. rewrite (Hv1 Ha1). discriminate.
       * intros _. cbn [mkeys]. split.
         -- rewrite (map_flat_map (fun m => IV m) (out arity)), flat_map_flat_map, map_flat_map.
            apply flat_map_ext_Forall.
@@ -885,10 +890,40 @@ Qed.
 Lemma existsb_false_Forall {A} (p : A -> bool) l : Forall (fun x => p x = false) l -> existsb p l = false.
 Proof. induction 1; simpl; auto. rewrite H. auto. Qed.
 
-Lemma conv_out_id_lemma t :
-  wf_top arity t = true -> nf (def_ty (out_top arity (conv_var arity t))) = nf t.
+Lemma union_not_all_param ts :
+  wf arity (TUnion ts) = true -> forallb is_param_or_union (map (inst arity) ts) = false.
 Proof.
-  unfold wf_top. intros H. apply andb_true_iff in H. destruct H as [Hwf Hnn]. apply negb_true_iff in Hnn.
+  intros Hwf. destruct (wf_union_inv _ Hwf) as (Hl & Hws & Hms & Hbases & _).
+  destruct ts as [|t1 [|t2 ts']]; simpl in Hl; try lia.
+  cbn [map]. cbn [map] in Hbases.
+  inversion Hws as [|? ? Hw1 Hws']; subst. inversion Hws' as [|? ? Hw2 _]; subst.
+  inversion Hms as [|? ? Hm1 Hms']; subst. inversion Hms' as [|? ? Hm2 _]; subst.
+  inversion Hbases as [|? ? Hn1 _]; subst.
+  destruct (N.eq_dec (base t1) type_id) as [E1|E1].
+  - assert (base t2 <> type_id) as E2.
+    { intros E2. apply Hn1. left. congruence. }
+    cbn [forallb]. rewrite (inst_not_param t2) by auto. rewrite andb_false_r. reflexivity.
+  - cbn [forallb]. rewrite (inst_not_param t1) by auto. reflexivity.
+Qed.
+
+(* storing the imported value under a name leaves a dialect value alone *)
+Lemma store_name_id t : wf arity t = true -> store_name (conv_var arity t) = conv_var arity t.
+Proof.
+  intros Hwf. destruct (member_ok t) eqn:Hm.
+  - rewrite conv_var_single by auto. reflexivity.
+  - destruct t; try (simpl in Hm; discriminate); try reflexivity.
+    destruct (wf_union_inv _ Hwf) as (Hl & _ & Hms & _).
+    rewrite conv_var_union by auto. pose proof (union_not_all_param _ Hwf) as Hf.
+    destruct ts as [|t1 [|t2 ts']]; simpl in Hl; try lia.
+    unfold store_name. cbn [map] in *. rewrite Hf. reflexivity.
+Qed.
+
+Lemma conv_out_id_lemma t :
+  wf_top arity t = true -> nf (def_ty (downstream arity t)) = nf t.
+Proof.
+  unfold wf_top, downstream. intros H.
+  assert (wf arity t = true) as Hwf0 by (apply andb_true_iff in H; tauto).
+  rewrite store_name_id by exact Hwf0. apply andb_true_iff in H. destruct H as [Hwf Hnn]. apply negb_true_iff in Hnn.
   pose proof (inv_all t Hwf) as HI.
   destruct (member_ok t) eqn:Hm.
   - (* one binding *)
@@ -925,27 +960,18 @@ Proof.
         rewrite existsb_false_Forall.
         2:{ apply Forall_forall. intros v Hv. apply in_map_iff in Hv. destruct Hv as [m [<- Hin]].
             rewrite Forall_forall in *. apply inst_not_unsolvable; auto. }
+        pose proof (union_not_all_param _ Hwf) as Hf.
         destruct ts as [|t1 [|t2 ts']]; simpl in Hl; try lia.
-        cbn [map]. cbn [map] in Hbases.
-        inversion Hws as [|? ? Hw1 Hws']; subst. inversion Hws' as [|? ? Hw2 _]; subst.
-        inversion Hms as [|? ? Hm1 Hms']; subst. inversion Hms' as [|? ? Hm2 _]; subst.
-        inversion Hbases as [|? ? Hn1 _]; subst.
-        assert (forallb (is_param_or_union)
-                        (inst arity t1 :: inst arity t2 :: map (inst arity) ts') = false) as ->; [|reflexivity].
-        destruct (N.eq_dec (base t1) type_id) as [E1|E1].
-        - assert (base t2 <> type_id) as E2.
-          { intros E2. apply Hn1. left. congruence. }
-          cbn [forallb]. rewrite (inst_not_param t2) by auto. rewrite andb_false_r. reflexivity.
-        - cbn [forallb]. rewrite (inst_not_param t1) by auto. reflexivity. }
+        cbn [map] in *. rewrite Hf. reflexivity. }
       rewrite <- conv_var_union by auto. apply HI.
 Qed.
 
 (* `x = T` in the upstream stub (a type alias): the downstream name is the class-valued attribute type[T] *)
 Lemma alias_out_id_lemma t :
   wf arity t = true -> is_any t = false -> nfree t = true ->
-  nf (def_ty (out_top arity (conv_alias t))) = nf (TGeneric type_id [t]).
+  nf (def_ty (out_top arity (store_name (conv_alias t)))) = nf (TGeneric type_id [t]).
 Proof.
-  intros Hwf Ha Hnf. unfold conv_alias. rewrite top_of_cls, nf_type_generic, Pa by auto. reflexivity.
+  intros Hwf Ha Hnf. unfold conv_alias. cbn [store_name]. rewrite top_of_cls, nf_type_generic, Pa by auto. reflexivity.
 Qed.
 
 End RoundTrip.
@@ -955,7 +981,7 @@ End RoundTrip.
 
 Lemma conv_out_canon_lemma arity t :
   arity type_id = 1%nat -> arity tuple_id = 1%nat -> wf_top arity t = true ->
-  canon (def_ty (out_top arity (conv_var arity t))) = canon t.
+  canon (def_ty (downstream arity t)) = canon t.
 Proof. intros H1 H2 Hwf. unfold canon. rewrite conv_out_id_lemma; auto. Qed.
 
 (* ------------------------------------------------------------------------------------------ *)
@@ -984,7 +1010,7 @@ Hypothesis resolve_ok : preserves arity resolve.
 Hypothesis prep_ok : preserves arity prep.
 Hypothesis post_ok : preserves arity post.
 
-Notation derived a := (def_ty (out_top arity (conv_var arity a))).
+Notation derived a := (def_ty (downstream arity a)).
 
 Lemma handoff_text_lemma t :
   wf_top arity t = true ->
@@ -1032,5 +1058,5 @@ End HandoffProofs.
 
 Lemma bare_type_refuted_lemma : exists t,
   wf_full_top builtin_arity t = true /\
-  canon (def_ty (out_top builtin_arity (conv_var builtin_arity t))) <> canon t.
+  canon (def_ty (downstream builtin_arity t)) <> canon t.
 Proof. exists (TClass type_id). split; [reflexivity|]. vm_compute. discriminate. Qed.
